@@ -50,6 +50,7 @@ type Contract struct {
 	Inline     bool // always inline at call sites (no modular contract)
 	Pure       bool // no heap effect (extern)
 	NoBody     bool // verify nothing, use at call sites only
+	NoSafety   bool // no-panic obligations of this function are not generated (assumed); only its contract clauses are checked
 	NoFrame    bool // entry point whose frame is not specified (request handlers): no frame obligations; must not be called from code under contract
 	File       string
 	Line       int
@@ -150,7 +151,7 @@ func (ct *ContractTable) parseFile(repo, file string) error {
 	keywords := map[string]bool{"func": true, "extern": true, "iface": true, "ghost": true, "ghostfield": true, "pred": true,
 		"requires": true, "ensures": true, "modifies": true, "serves": true, "loop": true, "call": true, "assume": true,
 		"trusted": true, "inline": true, "pure": true, "nobody": true, "axiom": true, "end": true,
-		"gmodifies": true, "gensures": true, "modset": true, "allowpanic": true, "encapsulated": true, "lensures": true, "constmap": true, "selfensures": true, "noframe": true}
+		"gmodifies": true, "gensures": true, "modset": true, "allowpanic": true, "encapsulated": true, "lensures": true, "constmap": true, "selfensures": true, "noframe": true, "nosafety": true}
 	for i, l := range lines {
 		t := strings.TrimSpace(l)
 		if !strings.HasPrefix(t, "//@") {
@@ -394,6 +395,8 @@ func (ct *ContractTable) parseFile(repo, file string) error {
 				cur.AllowPanic = true
 			case "noframe":
 				cur.NoFrame = true
+			case "nosafety":
+				cur.NoSafety = true
 			case "gmodifies":
 				for _, part := range splitTopLevel(rest, ',') {
 					part = strings.TrimSpace(part)
